@@ -154,17 +154,22 @@ pub fn expr_to_source(spanned_expr: &SpannedExpr) -> String {
         Expr::Output { expr } => format!("output {}", expr_to_source(expr)),
         Expr::Call { func, args } => {
             let args_str: Vec<String> = args.iter().map(expr_to_source).collect();
-            let func_str = match &func.node {
-                // Wrap lambdas in parentheses when used in call position
-                Expr::Lambda { .. } => format!("({})", expr_to_source(func)),
-                _ => expr_to_source(func),
-            };
+            // Wrap lambdas, operators, etc. in parentheses when used in call position
+            let func_str = wrap_if(needs_parens_in_postfix(func), expr_to_source(func));
             format!("{}({})", func_str, args_str.join(", "))
         }
         Expr::Access { expr, index } => {
-            format!("{}[{}]", expr_to_source(expr), expr_to_source(index))
+            format!(
+                "{}[{}]",
+                wrap_if(needs_parens_in_postfix(expr), expr_to_source(expr)),
+                expr_to_source(index)
+            )
         }
-        Expr::DotAccess { expr, field } => format!("{}.{}", expr_to_source(expr), field),
+        Expr::DotAccess { expr, field } => format!(
+            "{}.{}",
+            wrap_if(needs_parens_in_postfix(expr), expr_to_source(expr)),
+            field
+        ),
         Expr::BinaryOp { op, left, right } => {
             let op_str = binary_op_to_source(op);
             let left_str = if needs_parens_in_binop(op, left, true) {
@@ -181,11 +186,19 @@ pub fn expr_to_source(spanned_expr: &SpannedExpr) -> String {
         }
         Expr::UnaryOp { op, expr } => {
             let op_str = unary_op_to_source(op);
-            format!("{}{}", op_str, expr_to_source(expr))
+            format!(
+                "{}{}",
+                op_str,
+                wrap_if(needs_parens_in_unary(expr), expr_to_source(expr))
+            )
         }
         Expr::PostfixOp { op, expr } => {
             let op_str = postfix_op_to_source(op);
-            format!("{}{}", expr_to_source(expr), op_str)
+            format!(
+                "{}{}",
+                wrap_if(needs_parens_in_postfix(expr), expr_to_source(expr)),
+                op_str
+            )
         }
         Expr::Spread(expr) => format!("...{}", expr_to_source(expr)),
     }
@@ -249,6 +262,28 @@ fn binary_op_to_source(op: &BinaryOp) -> &'static str {
     }
 }
 
+/// Expressions whose source text extends as far to the right as possible (the else branch, the
+/// lambda body, the assigned value): anything written after them would be swallowed.
+fn is_open_ended(expr: &SpannedExpr) -> bool {
+    matches!(
+        &expr.node,
+        Expr::Conditional { .. } | Expr::Lambda { .. } | Expr::Assignment { .. } | Expr::Output { .. }
+    )
+}
+
+/// Whether the printed form of `expr` ends with an open-ended expression
+fn ends_open_ended(expr: &SpannedExpr) -> bool {
+    match &expr.node {
+        Expr::BinaryOp { op, right, .. } => {
+            !needs_parens_in_binop(op, right, false) && ends_open_ended(right)
+        }
+        Expr::UnaryOp { expr: inner, .. } => {
+            !needs_parens_in_unary(inner) && ends_open_ended(inner)
+        }
+        _ => is_open_ended(expr),
+    }
+}
+
 /// Check if a child expression needs parentheses when used in a binary operation
 pub fn needs_parens_in_binop(
     parent_op: &BinaryOp,
@@ -265,27 +300,51 @@ pub fn needs_parens_in_binop(
                 return true;
             }
 
-            // For same precedence, need parentheses on right side for:
-            // - Right-associative operators (e.g., power)
-            // - Non-associative operators (subtraction, division)
-            if child_prec == parent_prec && !is_left {
+            // For same precedence, the operand on the side the operator does not associate to
+            // needs parentheses: a - (b - c), a + (b - c), (a ^ b) ^ c
+            if child_prec == parent_prec {
                 match parent_assoc {
-                    Assoc::Right => return true,
+                    Assoc::Right => {
+                        if is_left {
+                            return true;
+                        }
+                    }
                     Assoc::Left => {
-                        // For left-associative operators, right side needs parens for non-associative ones
-                        if matches!(
-                            parent_op,
-                            BinaryOp::Subtract | BinaryOp::Divide | BinaryOp::Modulo
-                        ) {
+                        if !is_left {
                             return true;
                         }
                     }
                 }
             }
 
-            false
+            // A left operand must not end with a conditional, lambda or assignment
+            is_left && ends_open_ended(child_expr)
         }
-        _ => false,
+        Expr::UnaryOp { .. } => is_left && ends_open_ended(child_expr),
+        _ => is_left && is_open_ended(child_expr),
+    }
+}
+
+/// Check if the operand of a prefix operator needs parentheses
+pub fn needs_parens_in_unary(child_expr: &SpannedExpr) -> bool {
+    matches!(&child_expr.node, Expr::BinaryOp { .. })
+}
+
+/// Check if the operand of a postfix operator (`!`), or the target of a call, an index or a
+/// field access needs parentheses
+pub fn needs_parens_in_postfix(child_expr: &SpannedExpr) -> bool {
+    match &child_expr.node {
+        Expr::BinaryOp { .. } | Expr::UnaryOp { .. } => true,
+        Expr::Number(n) => n.is_sign_negative(),
+        _ => is_open_ended(child_expr),
+    }
+}
+
+fn wrap_if(needs_parens: bool, source: String) -> String {
+    if needs_parens {
+        format!("({})", source)
+    } else {
+        source
     }
 }
 
@@ -419,11 +478,25 @@ pub fn expr_to_source_with_scope(
                 UnaryOp::Not => "!",
                 UnaryOp::Invert => "~",
             };
-            format!("{}{}", op_str, expr_to_source_with_scope(expr, scope))
+            format!(
+                "{}{}",
+                op_str,
+                wrap_if(
+                    needs_parens_in_unary(expr),
+                    expr_to_source_with_scope(expr, scope)
+                )
+            )
         }
         Expr::PostfixOp { op, expr } => {
             let op_str = postfix_op_to_source(op);
-            format!("{}{}", expr_to_source_with_scope(expr, scope), op_str)
+            format!(
+                "{}{}",
+                wrap_if(
+                    needs_parens_in_postfix(expr),
+                    expr_to_source_with_scope(expr, scope)
+                ),
+                op_str
+            )
         }
         Expr::Spread(expr) => format!("...{}", expr_to_source_with_scope(expr, scope)),
         Expr::Assignment { ident, value } => {
@@ -437,24 +510,32 @@ pub fn expr_to_source_with_scope(
                 .iter()
                 .map(|e| expr_to_source_with_scope(e, scope))
                 .collect();
-            let func_str = match &func.node {
-                // Wrap lambdas in parentheses when used in call position
-                Expr::Lambda { .. } => {
-                    format!("({})", expr_to_source_with_scope(func, scope))
-                }
-                _ => expr_to_source_with_scope(func, scope),
-            };
+            // Wrap lambdas, operators, etc. in parentheses when used in call position
+            let func_str = wrap_if(
+                needs_parens_in_postfix(func),
+                expr_to_source_with_scope(func, scope),
+            );
             format!("{}({})", func_str, args_str.join(", "))
         }
         Expr::Access { expr, index } => {
             format!(
                 "{}[{}]",
-                expr_to_source_with_scope(expr, scope),
+                wrap_if(
+                    needs_parens_in_postfix(expr),
+                    expr_to_source_with_scope(expr, scope)
+                ),
                 expr_to_source_with_scope(index, scope)
             )
         }
         Expr::DotAccess { expr, field } => {
-            format!("{}.{}", expr_to_source_with_scope(expr, scope), field)
+            format!(
+                "{}.{}",
+                wrap_if(
+                    needs_parens_in_postfix(expr),
+                    expr_to_source_with_scope(expr, scope)
+                ),
+                field
+            )
         }
     }
 }
